@@ -263,24 +263,31 @@ def run(ctx):
     ctx.oblige("substitutionGen sites (in order) == Coq combinations [%d cases]" % len(cexprs), "correspondence", cb == 0,
                "%d disagree; first: %s" % (cb, next(("%s model=%s impl=%s" % (m_, a_, b_) for a_, b_, m_ in zip(cv, cgot, cmeta) if list(a_) != list(b_)), "")))
     # ---- defectGen: Poisson spheres under periodic boundaries, contact distance to atoms, reproducibility
-    for t in range(6 if quick else 60):
+    a_ = 6.0
+    CELLS = [np.eye(3) * 6.0, np.diag([5.0, 6.0, 7.0]), np.array([[6.0, 0, 0], [2.0, 6.0, 0], [1.0, 1.0, 6.0]]),
+             # acute cells: 60-degree rhombohedral (fcc primitive), 60-degree hexagonal setting, acute triclinic
+             np.array([[0, a_ / 2, a_ / 2], [a_ / 2, 0, a_ / 2], [a_ / 2, a_ / 2, 0]]) * 1.6,
+             np.array([[6.0, 0, 0], [3.0, 5.196152422706632, 0], [0, 0, 7.0]]),
+             np.array([[6.0, 0, 0], [3.5, 5.0, 0], [3.0, 2.0, 5.5]])]
+    for t in range(12 if quick else 120):
         from ase import Atoms
-        cellm = [np.eye(3) * 6.0, np.diag([5.0, 6.0, 7.0]), np.array([[6.0, 0, 0], [2.0, 6.0, 0], [1.0, 1.0, 6.0]])][t % 3]
-        atoms = Atoms("C2", positions=[[0.5, 0.5, 0.5], [3.0, 3.0, 3.0]], cell=cellm, pbc=True)
+        cellm = CELLS[t % len(CELLS)]
+        fr = np.array([[0.1, 0.1, 0.1], [0.5, 0.5, 0.5], [0.8, 0.3, 0.6]])
+        atoms = Atoms("C3", scaled_positions=fr, cell=cellm, pbc=True)
         r = rng.choice([1.5, 2.0, 2.5])
-        avoid = rng.random() < 0.5
+        avoid = rng.random() < 0.7
         seed = rng.randint(0, 10 ** 6)
         case = dict(cell=cellm.tolist(), r=r, avoid=avoid, seed=seed)
 
         def pts(seed_):
             Random.reseed(seed_)
             g = defectGen(atoms, "H", poisson_r=r, avoid_atoms=avoid)
-            return [s_.get_positions()[0] for s_ in itertools.islice(g, 40)]
+            return [s_.get_positions()[0] for s_ in itertools.islice(g, 150)]
         try:
             P1, P2 = pts(seed), pts(seed)
         except ValueError as e:
             if "too big" in str(e):          # the sampler refuses radii its grid cannot handle: a loud refusal, not a wrong answer
-                ctx.seen(("defect-refused", t % 3, r))
+                ctx.seen(("defect-refused", t % len(CELLS), r))
                 continue
             ctx.fail_input("defect", case, "defectGen raised ValueError: %s" % e, classify)
             continue
@@ -288,7 +295,7 @@ def run(ctx):
             ctx.fail_input("defect", case, "defectGen raised %s: %s" % (type(e).__name__, e), classify)
             continue
         ctx.evaluations += 1
-        ctx.seen(("defect", t % 3, r, avoid, len(P1)))
+        ctx.seen(("defect", t % len(CELLS), r, avoid, len(P1)))
         if len(P1) != len(P2) or not all(np.allclose(a_, b_) for a_, b_ in zip(P1, P2)):
             ctx.fail_input("defect", case, "re-seeding does not reproduce the defect positions", classify)
         from ase.geometry import get_distances
